@@ -26,6 +26,46 @@ pub enum Op {
     /// is new (other class / id), 1 = it already holds more attributes than any program (six, sealed
     /// and fingerprinted).  Equivalent to `clone()`.
     CloneFrom(u8),
+    /// an attribute type of the application's own (0x9A00 + len, value = len bytes), handed to
+    /// add_attribute through its own `AttributeWrite` implementation
+    Custom(u8),
+}
+
+/// The application-defined attribute of `Op::Custom`.
+#[derive(Debug)]
+pub struct AppAttr {
+    pub len: u8,
+}
+impl AppAttr {
+    pub fn typ(len: u8) -> u16 {
+        0x9A00 + len as u16
+    }
+    pub fn value(len: u8) -> Vec<u8> {
+        (0..len).map(|i| 0xA0 ^ i.wrapping_mul(7)).collect()
+    }
+}
+impl Attribute for AppAttr {
+    fn get_type(&self) -> AttributeType {
+        AttributeType::new(Self::typ(self.len))
+    }
+    fn length(&self) -> u16 {
+        self.len as u16
+    }
+}
+impl AttributeWrite for AppAttr {
+    fn to_raw(&self) -> RawAttribute {
+        RawAttribute::new(self.get_type(), &Self::value(self.len)).into_owned()
+    }
+    fn write_into_unchecked(&self, dest: &mut [u8]) {
+        let len = self.padded_len();
+        let offset = self.write_header_unchecked(dest);
+        let v = Self::value(self.len);
+        dest[offset..offset + v.len()].copy_from_slice(&v);
+        let offset = offset + v.len();
+        if len > offset {
+            dest[offset..len].fill(0);
+        }
+    }
 }
 
 impl Op {
@@ -40,6 +80,7 @@ impl Op {
             Op::Clone => "CLONE".into(),
             Op::Measure => "MEASURE".into(),
             Op::CloneFrom(k) => format!("CLONEFROM:{k}"),
+            Op::Custom(l) => format!("APP:{l}"),
         }
     }
     pub fn from_text(s: &str) -> Op {
@@ -54,6 +95,7 @@ impl Op {
             "CLONE" => Op::Clone,
             "MEASURE" => Op::Measure,
             "CLONEFROM" => Op::CloneFrom(p[1].parse().unwrap()),
+            "APP" => Op::Custom(p[1].parse().unwrap()),
             _ => panic!("harness: bad op text {s}"),
         }
     }
@@ -61,6 +103,7 @@ impl Op {
         match self {
             Op::Typed(k, _) => Some(k.code()),
             Op::Raw(t, _) => Some(*t),
+            Op::Custom(l) => Some(AppAttr::typ(*l)),
             Op::Sha1(_) => Some(wire::MI),
             Op::Sha256(_) => Some(wire::MI256),
             Op::Fp => Some(wire::FP),
@@ -152,10 +195,12 @@ pub fn execute(prog: &Prog, mut observe: impl FnMut(usize, &Result<(), WErr>, &M
         }
     }
     let creds: Vec<MessageIntegrityCredentials> = creds_alphabet().iter().map(real::creds).collect();
+    let apps: Vec<AppAttr> = (0..=12u8).map(|len| AppAttr { len }).collect();
     let mut b = real::builder(prog.class, prog.method, prog.tid);
     for (i, op) in prog.ops.iter().enumerate() {
         let r: Result<(), WErr> = match op {
             Op::Typed(..) => b.add_attribute(arena[i].as_ref().unwrap().as_write()).map_err(WErr::from),
+            Op::Custom(l) => b.add_attribute(&apps[(*l).min(12) as usize]).map_err(WErr::from),
             Op::Raw(t, v) => b.add_raw_attribute(RawAttribute::new(AttributeType::new(*t), v)).map_err(WErr::from),
             Op::Sha1(c) => b.add_message_integrity(&creds[*c as usize], IntegrityAlgorithm::Sha1).map_err(WErr::from),
             Op::Sha256(c) => b.add_message_integrity(&creds[*c as usize], IntegrityAlgorithm::Sha256).map_err(WErr::from),
@@ -239,6 +284,14 @@ impl RefBuilder {
                     return false;
                 }
                 self.attrs.push((*t, v.clone()));
+                true
+            }
+            Op::Custom(l) => {
+                let l = (*l).min(12);
+                if self.has(AppAttr::typ(l)) || self.sealed() {
+                    return false;
+                }
+                self.attrs.push((AppAttr::typ(l), AppAttr::value(l)));
                 true
             }
             Op::Sha1(c) => {
